@@ -432,3 +432,30 @@ def rule_xconst(ctx, cfg, prog):
         got = (tuple(fq2_dec(v['c0'][b]) for b in ('c0', 'c1', 'c2')), tuple(fq2_dec(v['c1'][b]) for b in ('c0', 'c1', 'c2')))
         ok = bls.f12_pow(got, bls.R_ORDER) == bls.F12_ONE and got != bls.F12_ONE
         m.ob('R-XCONST', ok, 'xconst|gt_generator-order', 'exported gt_generator is not an element of order r in Fq12', loc_str(g))
+
+
+# ---------------- C01 / C07 pairing-related constants ----------------
+def rule_pairing_constants(ctx, cfg, prog):
+    m = ConstModel(ctx, cfg, prog)
+    x = m.ival(NS + 'bls_x')
+    neg = m.val(NS + 'bls_x_is_negative')
+    m.ob('R-CONST', x == abs(bls.X) and bool(neg) == (bls.X < 0), 'blsx',
+         'bls_x / bls_x_is_negative do not encode the BLS12-381 parameter x = -0xd201000000010000', loc_str(m.g(NS + 'bls_x')))
+    hb = m.val(NS + 'bls_x_highest_set_bit')
+    nb = m.val(NS + 'bls_x_num_set_bits')
+    m.ob('R-CONST', hb == abs(bls.X).bit_length() - 1, 'blsx-highbit', 'bls_x_highest_set_bit != index of the top set bit of |x|',
+         loc_str(m.g(NS + 'bls_x_highest_set_bit')))
+    m.ob('R-CONST', nb == bin(abs(bls.X)).count('1'), 'blsx-popcount', 'bls_x_num_set_bits != popcount(|x|)',
+         loc_str(m.g(NS + 'bls_x_num_set_bits')))
+    if ctx.tier == 'thorough' and cfg == 'x64-asm':
+        q = bls.Q
+        v = m.val(NS + 'generator_pairing')
+        got = tuple(tuple(fq2_dec(v[a][b]) for b in ('c0', 'c1', 'c2')) for a in ('c0', 'c1'))
+        v1, v2 = m.val(NS + 'G1Affine::generator'), m.val(NS + 'G2Affine::generator')
+        P1 = (mont_decode(as_int(v1['x']), q, 384), mont_decode(as_int(v1['y']), q, 384))
+        P2 = (fq2_dec(v2['x']), fq2_dec(v2['y']))
+        e = bls.pairing_reduced(P1, P2)
+        e3 = bls.f12_pow(e, 3)
+        m.ob('R-CONST', got == e3, 'generator_pairing',
+             'generator_pairing is not the cube of the reduced optimal-ate pairing of the generator constants', loc_str(m.g(NS + 'generator_pairing')),
+             sample=dict(config=cfg, relation='generator_pairing == e_opt-ate(g1,g2)^3 (independent Python pairing)', equals_uncubed=(got == e)))
